@@ -98,6 +98,27 @@ def fn_signature(f):
     return "%s|%s|%s|%s->%s" % (f.kind, f.self_path or "", f.trait or "", ",".join(ins), out)
 
 
+def adt_shape(a):
+    """move-independent identity of a type: its variants and field names"""
+    return "|".join("%s(%s)" % (v.get("name"), ",".join(str(fd.get("name")) for fd in v.get("fields", []))) for v in a.get("variants", []))
+
+
+def compute_type_renames(adts, anchor_adts):
+    """types that were moved to another module since the anchors were recorded: a recorded type whose path is gone is re-bound to
+    the unique new type with the same last path segment and the same variants / field names"""
+    known = {a["path"] for a in anchor_adts}
+    missing = [a for a in anchor_adts if a["path"] not in adts]
+    fresh = {p: a for p, a in adts.items() if p not in known and p.startswith(("tsg::", "cli::"))}
+    out = []
+    for m in missing:
+        last = m["path"].rsplit("::", 1)[-1]
+        cands = [p for p, a in fresh.items() if p.rsplit("::", 1)[-1] == last and adt_shape(a) == m["shape"]]
+        if len(cands) == 1:
+            out.append((cands[0], m["path"]))
+    out.sort(key=lambda x: -len(x[0]))
+    return out
+
+
 def compute_renames(fns, anchors):
     """functions that were renamed or moved since the anchors were recorded: an anchor whose id is gone is
     re-bound to the unique new function with the same signature (and, if possible, the same name)"""
@@ -133,11 +154,20 @@ class Program:
         self.lib = load_crate(lib_path, LIB)
         self.bin = load_crate(bin_path, BIN)
         self.renames = []
+        self.type_renames = []
         if use_anchors and os.path.exists(ANCHORS):
-            anchors = json.load(open(ANCHORS))["functions"]
+            adoc = json.load(open(ANCHORS))
+            anchors = adoc["functions"]
+            # moved types first: their paths are part of every method id and signature
+            alla = dict(self.lib.adts)
+            alla.update(self.bin.adts)
+            self.type_renames = compute_type_renames(alla, adoc.get("adts", []))
+            if self.type_renames:
+                self.lib = load_crate(lib_path, LIB, list(self.type_renames))
+                self.bin = load_crate(bin_path, BIN, list(self.type_renames))
             allf = dict(self.lib.fns)
             allf.update(self.bin.fns)
-            self.renames = compute_renames(allf, anchors)
+            self.renames = self.type_renames + compute_renames(allf, anchors)
             # functions that are neither anchored nor re-bound are new helpers: they are inlined into their callers
             known = {a["id"] for a in anchors}
             self.lib = load_crate(lib_path, LIB, self.renames, known)
@@ -526,10 +556,24 @@ def callee_def(t):
     return f["fn"]["def"]
 
 
+class _Indirect(dict):
+    """callee of an indirect call (a closure or fn-pointer value): falsy, and every lookup is harmless — `fr["def"]` is "<indirect>",
+    `fr.get("rdef")` is None — so that a rule meeting an indirect call where it expects a named callee cannot crash"""
+
+    def __bool__(self):
+        return False
+
+    def __missing__(self, k):
+        return "<indirect>" if k == "def" else None
+
+
+_INDIRECT = _Indirect()
+
+
 def callee_fn(t):
     f = t["func"]
     if f["k"] != "const" or "fn" not in f:
-        return None
+        return _INDIRECT
     return f["fn"]
 
 
